@@ -653,8 +653,17 @@ func ResolveAnchors(p *Prog) *Anchors {
 		if !intPred(fn) {
 			return false
 		}
+		// a status predicate whose constants all lie in the 5xx range (a list of codes or a range test)
 		cs := intConstsIn(fn)
-		return cs[502] && cs[503] && !cs[200]
+		if len(cs) == 0 {
+			return false
+		}
+		for k := range cs {
+			if k < 500 || k > 599 {
+				return false
+			}
+		}
+		return true
 	})
 	var statusTables []*ssa.Function
 	for _, fn := range all {
@@ -788,7 +797,9 @@ func ResolveAnchors(p *Prog) *Anchors {
 		}
 		return rec(fn)
 	}
-	inInternalReach := func(fn *ssa.Function) bool { return a.Reach[fn] && fn.Pkg != nil && fn.Pkg.Pkg.Path() == a.internalPath }
+	inInternalReach := func(fn *ssa.Function) bool {
+		return a.Reach[fn] && fn.Pkg != nil && fn.Pkg.Pkg.Path() == a.internalPath
+	}
 	pick("readEntry", inInternalReach, func(fn *ssa.Function) bool {
 		return connCall(fn, "Get") && callsWhere(fn, func(c *ssa.CallCommon) bool { return c.StaticCallee() == ep })
 	})
